@@ -850,7 +850,8 @@ def get_charnos(node: ast.AST, source: str, keep_first_indent: bool = False) -> 
     Returns:
         Tuple[int, int]: start, end
     """
-    line_start_charnos = _get_line_start_charnos(source)
+    # Nodes to be inserted after the last line have a lineno one past the end of the source.
+    line_start_charnos = _get_line_start_charnos(source) + (len(source),)
     if match_template(node, ast.AST(decorator_list=list)) and node.decorator_list:
         start = min(node.decorator_list, key=_get_position)
     else:
